@@ -3,7 +3,7 @@
 #![allow(dead_code)]
 use q1tsim::circuit::{Circuit, QuStateRepr};
 use q1tsim::error::Error;
-use q1tsim::gates::{CCX, CX, S, Swap, X, Y, Z};
+use q1tsim::gates::{CCX, CX, Kron, S, Swap, X, Y, Z};
 use q1tsim::verif::{trace_start, trace_take, Snapshot, TraceEntry};
 use rand::SeedableRng;
 
@@ -71,6 +71,8 @@ fn add_named_gate(c: &mut Circuit, g: &str, bits: &[usize]) -> Result<(), Error>
         "CX" => c.add_gate(CX::new(), bits),
         "CCX" => c.add_gate(CCX::new(), bits),
         "Swap" => c.add_gate(Swap::new(), bits),
+        "KronXCX" => c.add_gate(Kron::new(X::new(), CX::new()), bits),
+        "KronCXX" => c.add_gate(Kron::new(CX::new(), X::new()), bits),
         _ => panic!("unknown gate {}", g)
     }
 }
@@ -86,6 +88,8 @@ fn add_named_cond(c: &mut Circuit, control: &[usize], target: u64, g: &str, bits
         "CX" => c.add_conditional_gate(control, target, CX::new(), bits),
         "CCX" => c.add_conditional_gate(control, target, CCX::new(), bits),
         "Swap" => c.add_conditional_gate(control, target, Swap::new(), bits),
+        "KronXCX" => c.add_conditional_gate(control, target, Kron::new(X::new(), CX::new()), bits),
+        "KronCXX" => c.add_conditional_gate(control, target, Kron::new(CX::new(), X::new()), bits),
         _ => panic!("unknown gate {}", g)
     }
 }
